@@ -6,7 +6,7 @@ LEVEL = "proof"
 
 def run(ctx):
     npat = 900 if ctx.quick() else 6000
-    generic.standard(ctx, "Props_C01", "rx", "api-vs-regexp", lists=(), model=True, ledger="known/C01.ledger",
+    generic.standard(ctx, ["Props_C01", "Props_Pike"], "rx", "api-vs-regexp", lists=(), model=True, ledger="known/C01.ledger",
                      extra_args=["-prop", "C01", "-patterns", npat, "-haystacks", 24])
     ctx.coverage["explanation"] = (
         "Coq (Nfa.v, NfaRef.v, Backtrack.v): the reference search on the byte-level Thompson NFA is a priority-ordered DFS with a visited "
